@@ -83,6 +83,27 @@ def gen_one(rng, i, tier):
         off_ = rng.choice([0, 1, 17]) if rng.random() < 0.5 else top_ - step_ * (len(vals) - 1) - rng.choice([0, 1, 3])
         rank = {v: float(off_ + step_ * k) for k, v in enumerate(vals)}
         pos, neg = [rank[x] for x in pos], [rank[x] for x in neg]
+    if narrow is None and dt is None and rng.random() < 0.06:
+        # low-precision score arrays (float16 / float32 model outputs) whose values are CONSECUTIVE representable numbers of
+        # that dtype (1-3 ulp apart): any midpoint or interpolation rounded back to the scores' dtype lands on a sample
+        dt = rng.choice(["f2", "f4", "f2"])
+        fdt = np.float16 if dt == "f2" else np.float32
+        v_ = fdt(rng.choice([0.5, 1.0, 3.0, 100.0, -2.0]))
+        seq = []
+        for _ in range(len(pos) + len(neg)):
+            for _k in range(rng.randint(1, 3)):
+                v_ = np.nextafter(v_, fdt(np.inf), dtype=fdt)
+            seq.append(float(v_))
+        if rng.random() < 0.7:
+            # perfectly separated in the direction of the shortcut
+            if sc == "pos":
+                neg, pos = seq[:len(neg)], seq[len(neg):]
+            else:
+                pos, neg = seq[:len(pos)], seq[len(pos):]
+        else:
+            rng.shuffle(seq)
+            pos, neg = seq[:len(pos)], seq[len(pos):]
+        kind = "general"
     huge = False
     if kind == "tiefree" and dt is None and rng.random() < 0.12:
         # enormous declared easy populations around a few hundred overlapping scored samples: "one sample" is then about
@@ -128,7 +149,7 @@ def build(inp) -> Case:
     inp = dict(inp)
     pos, neg, ep, en, sc, ec = inp["pos"], inp["neg"], inp["ep"], inp["en"], inp["sc"], inp["ec"]
     if inp.get("dt"):
-        npdt = {"u1": np.uint8, "u2": np.uint16, "i8": np.int64}[inp["dt"]]
+        npdt = {"u1": np.uint8, "u2": np.uint16, "i8": np.int64, "f2": np.float16, "f4": np.float32}[inp["dt"]]
         s = Scores(np.array(pos, dtype=npdt), np.array(neg, dtype=npdt), nb_easy_pos=ep, nb_easy_neg=en, score_class=sc,
                    equal_class=ec)
     else:
@@ -163,9 +184,17 @@ def build(inp) -> Case:
         pre.append(Issue("PROPFAIL", "raises", f"eer raised {r[1]}: {r[2]}", f"eer/raises/{r[1]}"))
         return Case(ID, inp, [], lambda o: [], (inp["kind"],), 0, pre)
     t, e = float(r[1][0]), float(r[1][1])
+    # a shallow copy is updated and queried in between (copy.copy(s) with other easy counts: "what if we had 5000 more easy
+    # rejections"): the original is not the copy
+    import copy as _copy
+    c_ = _copy.copy(s)
+    c_.nb_easy_neg = int(s.nb_easy_neg) + 50 + 3 * len(neg)
+    c_.nb_easy_pos = int(s.nb_easy_pos) + 7
+    common.call(c_.eer)
     r2 = common.call(s.eer)
     if r2[0] != "ok" or (float(r2[1][0]), float(r2[1][1])) != (t, e):
-        pre.append(Issue("PROPFAIL", "repeat", "eer() not repeatable", "eer/repeat"))
+        pre.append(Issue("PROPFAIL", "repeat", f"eer() = {(t, e)}, and after a shallow COPY of the object was given other easy counts and "
+                         f"asked for its eer(), the original's eer() = {r2[1] if r2[0] == 'ok' else r2[1:]}", "eer/repeat"))
     icm = thr_common.cells(s.cm(np.array([t])))
     fpr_t, fnr_t = float(s.fpr(t)), float(s.fnr(t))
     eps = Fraction(1, 10**9)
